@@ -475,6 +475,9 @@ func runReplay[C any](s *Sub, chk func(C) []Finding) bool {
 		s.t.Skip("replay: other sub-check")
 		return true
 	}
+	if len(raw) == 0 || string(raw) == "null" {
+		return false // a whole-sub-check replay (e.g. a data-race report): run it normally
+	}
 	var c C
 	if err := json.Unmarshal(raw, &c); err != nil {
 		s.t.Fatalf("replay: cannot decode case: %v", err)
